@@ -188,6 +188,8 @@ pub struct Rec {
   pub evaluations: u64,
   pub fps: HashSet<u64>,
   pub fp_overflow: u64,
+  /// non-trivial cases counted in bulk by an exhaustive enumerator (distinct by construction)
+  pub bulk_nontrivial: u64,
   pub classes: BTreeMap<String, u64>,
   pub samples: Vec<Value>,
   pub samples_seen: u64,
@@ -234,6 +236,12 @@ impl Rec {
       self.fp_overflow += 1;
     }
   }
+  /// `k` distinct non-trivial cases of an exhaustive block (distinct by construction)
+  pub fn nontrivial_bulk(&mut self, k: u64) {
+    if !self.frozen {
+      self.bulk_nontrivial += k;
+    }
+  }
   pub fn metric_max(&mut self, name: &str, v: f64) {
     if self.frozen || v.is_nan() {
       return;
@@ -275,6 +283,7 @@ impl Rec {
       }
     }
     self.fp_overflow += o.fp_overflow;
+    self.bulk_nontrivial += o.bulk_nontrivial;
     for (k, v) in o.classes {
       *self.classes.entry(k).or_insert(0) += v;
     }
@@ -599,6 +608,7 @@ pub fn evidence_part(ctx: &Ctx, meta: &PropMeta, rep: &Report) -> Value {
   let mut evaluations = 0u64;
   let mut all_fps: HashSet<u64> = HashSet::new();
   let mut overflow = 0u64;
+  let mut bulk = 0u64;
   let mut classes: BTreeMap<String, u64> = BTreeMap::new();
   let mut samples: Vec<Value> = vec![];
   let mut known: BTreeMap<String, u64> = BTreeMap::new();
@@ -612,6 +622,7 @@ pub fn evidence_part(ctx: &Ctx, meta: &PropMeta, rep: &Report) -> Value {
       all_fps.insert(fp_of(&(fp, &s.name, &ctx.profile)));
     }
     overflow += s.rec.fp_overflow;
+    bulk += s.rec.bulk_nontrivial;
     for (k, v) in &s.rec.classes {
       *classes.entry(format!("{}:{}", s.name, k)).or_insert(0) += v;
     }
@@ -642,7 +653,7 @@ pub fn evidence_part(ctx: &Ctx, meta: &PropMeta, rep: &Report) -> Value {
       "name": s.name,
       "planned": s.planned,
       "evaluations": s.rec.evaluations,
-      "distinct_nontrivial": s.rec.fps.len() as u64,
+      "distinct_nontrivial": s.rec.fps.len() as u64 + s.rec.bulk_nontrivial,
       "exhaustive": s.exhaustive,
       "wall_s": (s.wall_s * 1000.0).round() / 1000.0,
     }));
@@ -661,7 +672,7 @@ pub fn evidence_part(ctx: &Ctx, meta: &PropMeta, rep: &Report) -> Value {
     "seed": ctx.seed,
     "profile": ctx.profile,
     "evaluations": evaluations,
-    "distinct_nontrivial": all_fps.len() as u64,
+    "distinct_nontrivial": all_fps.len() as u64 + bulk,
     "distinct_nontrivial_is_lower_bound": overflow > 0,
     "rule": meta.rule,
     "samples": samples,
